@@ -69,13 +69,9 @@ class Config(CIBaseModel):
         """Resolve search paths and initialize the global configuration
         singleton."""
 
-        global _config
         if _config is not None:
             raise RuntimeError('Config has already been initialized.')
-        try:
-            self._normalize_path()
-        finally:
-            _config = self
+        self._normalize_path()
 
         return self
 
@@ -99,6 +95,11 @@ class Config(CIBaseModel):
                 'weather_data_dir',
                 Path(self.file_location(self.weather.weather_data_dir)).resolve(),
             )
+
+        # Only a completely validated configuration becomes the active one: a
+        # load that fails part-way must leave the system unconfigured.
+        global _config
+        _config = self
         return self
 
     def file_location(self, f: Path | str) -> Path:
